@@ -26,23 +26,29 @@ THEOREMS = [
     "GoaktVerif.C27.witnessSysDown_facts",
     "GoaktVerif.C27.C27_refuted",
     "GoaktVerif.C27.C27_partial",
+    "GoaktVerif.C27.noRace_step",
+    "GoaktVerif.C27.exitClean_step",
+    "GoaktVerif.C27.C27_close_complete",
+    "GoaktVerif.C27.C27_partial_close",
     "GoaktVerif.C27.C27_fq_has_slack",
+    "GoaktVerif.C27.C27_fq_cap_tie",
 ]
 GO2LEAN = {"targets": [
     {"kind": "const", "file": "actor/remote_server.go", "name": "coalescedFailureQueueSize", "lean": "coalescedFailureQueueSize"},
     {"kind": "const", "file": "actor/defaults.go", "name": "remoteSendCoalescingMaxBatch", "lean": "remoteSendCoalescingMaxBatch"},
 ]}
-INPKG = ["internal/remoteclient/zz_verif_c27.go"]
+INPKG = ["internal/remoteclient/zz_verif_c27.go", "actor/zz_verif_c27.go"]
 TIMEOUT = 900
 MANIFEST = {
-    "level_text": "Kernel-checked theorems over a small-step interleaving model of coalescer.submit/run/close and the failure fan-out, for ALL schedules of any length with any number of sending goroutines, any transport outcome per batch, any resolution of Go's random select, close and shutdown at any point: global FIFO (flushed batches ++ writer batch ++ channel = acceptance log, C27_fifo), per-thread send order and at-most-once (C27_order), nothing reaches the transport unaccepted (C27_no_phantom), and an exact account of where every accepted message is in a quiescent state (C27_loss_sites). The accounting clause of the property is REFUTED for the current code (C27_refuted; open findings C27-F3 submit racing close, C27-F2 fan-out drops; C27-F1 close abandoning queued batches was fixed by 305110c and is a regression corpus + theorem witnessClose_facts) and proved under the guards no-close and no-handler-drop (C27_partial). The model is tied to the code by running the real Client.RemoteTell / coalescer goroutine / Client.Close against a gate-controlled in-process proto server and comparing batch boundaries, submit results, handler calls and the channel leftover with the model's output set.",
-    "level_note": "partial: (1) the tie is a differential on controller-serialised schedules (the controller acts only while the writer is parked in a flush or idle); finer interleavings of submit's three steps with the writer (e.g. the submit-racing-close witness) exist only in the model; (2) enqueueCoalescedFailure / drainCoalescedFailures (actor/remote_server.go) are modelled and the queue-size constant is regenerated from source, but they are not driven by the harness; dead-letter publication itself is C18; (3) the remote node's in-order handling of a batch (remoteTellHandler's loop, handleConn's sequential read loop) and TCP are assumptions; (4) a flush that fails after the remote node already processed it is both delivered and dead-lettered (at-most-once is about the coalescer never re-sending).",
+    "level_text": "Kernel-checked theorems over a small-step interleaving model of coalescer.submit/run/close and the failure fan-out, for ALL schedules of any length with any number of sending goroutines, any transport outcome per batch, any resolution of Go's random select, close and shutdown at any point: global FIFO (flushed batches ++ writer batch ++ channel = acceptance log, C27_fifo), per-thread send order and at-most-once (C27_order), nothing reaches the transport unaccepted (C27_no_phantom), and an exact account of where every accepted message is in a quiescent state (C27_loss_sites). The accounting clause of the property is REFUTED for the current code (C27_refuted; open findings C27-F3 submit racing close, C27-F2 fan-out drops; C27-F1 close abandoning queued batches was fixed by 305110c and is a regression corpus + theorem witnessClose_facts) and proved under the guards no-close and no-handler-drop (C27_partial) and, for schedules WITH close, under the guard that no submit call straddles the close (C27_close_complete: the writer exits only on an empty channel; C27_partial_close). The model is tied to the code by running the real Client.RemoteTell / coalescer goroutine / Client.Close against a gate-controlled in-process proto server and comparing batch boundaries, submit results, handler calls and the channel leftover with the model's output set.",
+    "level_note": "partial: (1) the tie is a differential on controller-serialised schedules (the controller acts only while the writer is parked in a flush or idle); finer interleavings of submit's three steps with the writer (e.g. the submit-racing-close witness) exist only in the model; (2) enqueueCoalescedFailure / drainCoalescedFailures (actor/remote_server.go) are driven on a real started actor system through an in-package accessor (queue replaced by a small one without drain goroutine so that fill/drop is deterministic; dead letters read from the event stream) separately from the coalescer; the end-to-end chain coalescer -> handler -> dead letter is composed in the model only; dead-letter publication itself is C18; (3) the remote node's in-order handling of a batch (remoteTellHandler's loop, handleConn's sequential read loop) and TCP are assumptions; (4) a flush that fails after the remote node already processed it is both delivered and dead-lettered (at-most-once is about the coalescer never re-sending).",
     "technique": "Lean 4 proof (inductive invariants over a small-step interleaving semantics) + model/implementation differential on gate-controlled runs of the real goroutines",
 }
 TRUSTED = [
     "Go channel semantics (FIFO buffer, blocked senders are admitted in order, select picks uniformly among ready cases) as modelled in Model/C27.lean",
     "the controller harness (harness/verifdrv/c27) serialises the real goroutines correctly: it acts only while the writer is parked in a flush or idle",
     "remote side handles the messages of a batch in slice order and the batches of the single writer sequentially (remoteTellHandler loop; ProtoServer.handleConn is a sequential read loop)",
+    "the fan-out accessor harness/inpkg/actor/zz_verif_c27.go swaps the queue for a small one (the real capacity is read back and compared with the regenerated constant)",
     "tools/go2lean extraction of coalescedFailureQueueSize and remoteSendCoalescingMaxBatch",
 ]
 RULE = ("controller scripts over maxBatch 1..8, handler on/off, 1..3 sending threads, 4..40 ops mixing sends, blocked sends, cancels, "
@@ -119,14 +125,33 @@ def _structured():
     return out
 
 
+def _gen_fq(rng):
+    size = rng.choice([0, 1, 2, 3, 4, 8])
+    ops = []
+    for _ in range(rng.randint(1, 10)):
+        r = rng.random()
+        if r < 0.1:
+            ops.append("d")
+        elif r < 0.2:
+            ops.append("u")
+        else:
+            ops.append("e%d" % rng.randint(0, 4))
+    return "fq %d %s" % (size, " ".join(ops))
+
+
+def _structured_fq():
+    return ["fq 256 " + " ".join(["e1"] * 20), "fq 2 e1 e2 e3 e1", "fq 3 e2 d e1 u e1", "fq 4 e2 e2"]
+
+
 def gen_cases(rng, tier):
     n = 140 if tier == "quick" else 2500
-    return _structured() + [_gen_one(rng) for _ in range(n)]
+    m = 25 if tier == "quick" else 400
+    return _structured() + _structured_fq() + [_gen_one(rng) for _ in range(n)] + [_gen_fq(rng) for _ in range(m)]
 
 
 def search_cases(rng, tier):
     n = 600 if tier == "quick" else 4000
-    return _structured() + [_gen_one(rng, big=(i % 3 == 0)) for i in range(n)]
+    return _structured() + _structured_fq() + [_gen_one(rng, big=(i % 3 == 0)) for i in range(n)] + [_gen_fq(rng) for _ in range(60)]
 
 
 def compare(case, impl, model):
@@ -172,6 +197,12 @@ def oracle(case, impl, judge):
         return None
     if judge is not None:
         return None if judge.startswith("ok") else judge
+    if case.startswith("fq"):
+        total = sum(int(o[1:]) for o in case.split()[2:] if o.startswith("e"))
+        dead = [d for d in impl.split("dead=")[1].split(",") if d] if "dead=" in impl else []
+        if len(set(dead)) != len(dead):
+            return "bad a message was dead-lettered twice"
+        return None if len(dead) == total else "bad fanout-dropped %d of %d failed messages were not dead-lettered" % (total - len(dead), total)
     ob = _parse(impl)
     if ob is None:
         return "bad unparsable output: " + impl
@@ -195,6 +226,22 @@ def oracle(case, impl, judge):
 def classify(case, impl, why):
     """C27-F1 (fixed by 305110c, so a VIOLATION if it shows again): every unaccounted accepted message
     is one that was still sitting in the channel buffer when the writer goroutine exited after close."""
+    if case.startswith("fq") and why and why.startswith("bad fanout-dropped"):
+        # C27-F2: the only way a handed-off message is not dead-lettered is a hand-off made while the
+        # queue already held <size> entries or while shuttingDown was set
+        size, full, down, n = int(case.split()[1]), 0, False, 0
+        dropped = 0
+        for o in case.split()[2:]:
+            if o == "d":
+                down = True
+            elif o == "u":
+                down = False
+            elif o.startswith("e"):
+                if down or full >= size:
+                    dropped += int(o[1:])
+                else:
+                    full += 1
+        return "C27-F2" if why.startswith("bad fanout-dropped %d of" % dropped) else "C27-property-failure"
     if why and why.startswith(("bad", "harness")) and not why.startswith("bad silently-dropped"):
         return "C27-property-failure"   # not a known finding; keeps the shrinker on property failures
     if not why or not why.startswith("bad silently-dropped"):
@@ -209,10 +256,14 @@ def classify(case, impl, why):
 
 
 def is_trivial(case, impl):
+    if case.startswith("fq"):
+        return "dead=" not in impl or impl.endswith("dead=")
     return (not impl) or impl.startswith(("bad-case", "HARNESS", "STALL", "CRASH", "panic")) or " | B  | " in impl
 
 
 def tag(case, impl):
+    if case.startswith("fq"):
+        return "fq:" + ("drop" if ("d" in case.split()[2:]) else "fill")
     f = case.split()
     t = []
     ops = f[3:]
@@ -229,6 +280,7 @@ def tag(case, impl):
 
 def shrink(case):
     f = case.split()
-    head, ops = f[:3], f[3:]
+    k = 2 if f[0] == "fq" else 3
+    head, ops = f[:k], f[k:]
     for i in range(len(ops)):
         yield " ".join(head + ops[:i] + ops[i + 1:])
